@@ -409,8 +409,9 @@ End Model.
    one generic object (service 2, object 1) *)
 Definition mk_obj (svc id : N) (k : okind) : obj :=
   {| o_svc := svc; o_id := id; o_kind := k; o_alive := true; o_table := []; o_mb := []; o_gor := OIdle |}.
-Definition hinit : hstate :=
-  {| objs := [mk_obj 0 0 KAuth; mk_obj 1 1 KDirectory; mk_obj 2 1 KGeneric]; conns := []; closers := [] |}.
+Definition hinit_of (id2 : N) : hstate :=
+  {| objs := [mk_obj 0 0 KAuth; mk_obj 1 1 KDirectory; mk_obj 2 1 KGeneric; mk_obj 2 id2 KGeneric]; conns := []; closers := [] |}.
+Definition hinit : hstate := hinit_of 77.
 
 (* payload classes as the harness encodes them: the generator knows what it built *)
 Definition std_cls (_ : okind) (_ : N) (pl : N) : pcls :=
